@@ -221,6 +221,8 @@ type CertCfg struct {
 	Issuer     string    `json:"issuer,omitempty"`
 	Profile    string    `json:"profile,omitempty"`
 	Serial     *int64    `json:"serial,omitempty"`
+	// SerialText: the serialNumber written as this decimal text (numbers an int64 cannot hold); the reference does not model it
+	SerialText string `json:"serialText,omitempty"`
 	IssuerUID  *Raw      `json:"issuerUid,omitempty"`
 	SubjectUID *Raw      `json:"subjectUid,omitempty"`
 	KeyAlg     string    `json:"keyAlg,omitempty"`
@@ -472,7 +474,9 @@ func (c *CertCfg) Tree() Map {
 		m = append(m, KV{"alias", c.Alias})
 	}
 	m = append(m, KV{"subject", c.Subject})
-	if c.Serial != nil {
+	if c.SerialText != "" {
+		m = append(m, KV{"serialNumber", Num(c.SerialText)})
+	} else if c.Serial != nil {
 		m = append(m, KV{"serialNumber", Num(strconv.FormatInt(*c.Serial, 10))})
 	}
 	if c.IssuerUID != nil {
